@@ -11,7 +11,7 @@ from fractions import Fraction as Fr
 from core import *
 
 NEEDS = ["Solver", "SolverProofs", "Corr"]
-GUARDS = ["rows_fit"]
+GUARDS = ["rows_fit", "heun_same_time"]
 
 # ---------------------------------------------------------------------------------------------- impl side (worker)
 def _err(e):
@@ -96,7 +96,17 @@ def impl_run(case):
         nodes = {f"n{i}": NodeTemplate(name=f"n{i}", operators={op: {"k": float(Fr(n["k"])), "c": float(Fr(n["c"])), "x": float(Fr(n["x0"]))}})
                  for i, n in enumerate(case["nodes"])}
         circ = CircuitTemplate(name="c", nodes=nodes)
-        outputs = {f"o{j}": f"n{i}/op/x" for j, i in enumerate(case["cols"])}
+        oform = case.get("oform", "dict")
+        if oform == "list":        # list-form outputs: columns are the variable paths
+            outputs = [f"n{i}/op/x" for i in case["cols"]]
+            expect_cols = list(outputs)
+        elif oform == "wild":      # one wildcard key: MultiIndex columns (key, node, 'op/x') in node order (cols = all nodes in order)
+            outputs = {"o": "all/op/x"}
+            # (a wildcard that matches a single variable gives the plain column 'o')
+            expect_cols = [("o", f"n{i}", "op/x") for i in case["cols"]] if len(case["nodes"]) > 1 else ["o"]
+        else:
+            outputs = {f"o{j}": f"n{i}/op/x" for j, i in enumerate(case["cols"])}
+            expect_cols = list(outputs)
         kw = dict(simulation_time=float(Fr(case["T"])), step_size=float(Fr(case["dt"])), solver=case["solver"], outputs=outputs,
                   cutoff=float(Fr(case["cutoff"])), vectorize=case["vectorize"], in_place=False, verbose=False, clear=True,
                   float_precision="float64", backend=case.get("backend", "default"))
@@ -109,7 +119,7 @@ def impl_run(case):
         except (IndexError, ZeroDivisionError, ValueError) as e:
             return _err(e)
         vals = np.asarray(res.values, dtype=np.float64)
-        if list(res.columns) != list(outputs) or vals.ndim != 2 or vals.shape != (len(res.index), len(outputs)):
+        if list(res.columns) != expect_cols or vals.ndim != 2 or vals.shape != (len(res.index), len(expect_cols)):
             return {"raised": "BadFrame", "msg": f"columns={list(res.columns)} shape={vals.shape} index={len(res.index)}"}
         vals = np.where(np.isfinite(vals), vals, 0.0)
         return {"rows": [[_fr(t)] + [_fr(v) for v in row] for t, row in zip(res.index.values, vals)]}
@@ -243,10 +253,16 @@ def gen_run(rng):
         x = (step / dt) * rng.randint(1, max(1, int(40 * dt / step)))
     ncols = rng.randint(1, nn)
     cols = rng.sample(range(nn), ncols)
-    backend = rng.choice(["default"] * 7 + ["torch", "jax", "jax"])
+    # every backend with its own fixed-step loop: default (Euler, Heun), torch (Euler; Heun is rejected), jax (Euler, Heun)
+    backend = rng.choice(["default"] * 5 + ["torch"] * 2 + ["jax"] * 3)
+    oform = rng.choice(["dict", "dict", "list", "wild"])
+    if oform == "wild":
+        cols = list(range(nn))
     case = dict(kind="run", solver="euler" if backend == "torch" else rng.choice(["euler", "heun"]), backend=backend, dt=str(dt), dts=None if dts is None else str(dts), nodes=nodes,
-                cols=cols, vectorize=rng.random() < 0.5, aliased=True)
-    with_inp = backend == "default" and rng.random() < 0.35
+                cols=cols, oform=oform, vectorize=rng.random() < 0.5, aliased=True)
+    # a time-dependent right-hand side (an input array u_k = b + a*k read with the step counter) on every backend,
+    # together with store_step > 1 and a cutoff
+    with_inp = rng.random() < (0.35 if backend == "default" else 0.6)
     inp_node, inp_a, inp_b, inp_extra = rng.randrange(nn), rng.choice([-2, -1, 1, 1, 2, 3]), rng.randint(-3, 3), rng.choice([0, 0, 1, 3])
     while True:
         T = x * dt
@@ -262,7 +278,10 @@ def gen_run(rng):
             cutoff = rng.choice([Fr(-1), T, T + 1])
         case["T"] = str(T); case["cutoff"] = str(cutoff)
         if with_inp:
-            case["inp"] = dict(node=inp_node, a=inp_a, b=inp_b, n=max(2, py_round(T / dt) + inp_extra))   # a one-sample array is squeezed to 0-d: loud IndexError (reported)
+            # a one-sample array is squeezed to 0-d: loud IndexError (reported).  jax clamps an index past the end instead of
+            # raising, runs round(T/dts)*store_step steps and its Heun corrector reads sample k+1: give it every sample it reads
+            n_read = py_round(T / dt) if backend != "jax" else max(py_round(T / dt), nrows * max(py_round(step / dt), 1)) + 1
+            case["inp"] = dict(node=inp_node, a=inp_a, b=inp_b, n=max(2, n_read + inp_extra))
         if exact_ok(case):
             return case
         x = Fr(int(x) // 2) + (x - int(x))
@@ -316,10 +335,21 @@ Record tcase := { isrun : bool; isjax : bool; sv : solver; cT : Qc; cdt : Qc; cd
 Definition dts_of c := match cdts c with Some d => d | None => cdt c end.
 (* the jax backend's own loops (lax.scan: round(T/dts) outer iterations of store_step inner steps) never overflow
    the record: their rows are spec_rows itself (C02's theorems are about these loops; here they are only tied) *)
+(* JaxBackend._solve_heun evaluates the corrector with the step counter t+1 (finding D16 of C02); Euler as everywhere *)
+Definition heun_step_jax {C} (f : C -> nat -> row -> row * C) (dt : Qc) (c : C) (t : nat) (y : row) : row * C :=
+  let '(r1, c1) := f c t y in
+  let y_0 := vadd y (vscale dt r1) in
+  let '(r2, c2) := f c1 (S t) y_0 in
+  (vadd y (vscale (dt / (Q2Qc 2))%Qc (vadd r1 r2)), c2).
+Definition jax_step {C} (f : C -> nat -> row -> row * C) (s : solver) (dt : Qc) :=
+  match s with Euler => euler_step f dt | Heun => heun_step_jax f dt end.
 Definition jax_run (c : tcase) : outcome :=
-  let n := rnd (cT c / dts_of c) in
+  let d := dts_of c in
+  let n := rnd (cT c / d) in
   if (n =? 0) then ErrIndex
-  else Rows (spec_run (lin_f (crhs c)) (sv c) (cT c) (cdt c) (cdts c) (ccut c) (ccols c) (cy0 c) 0).
+  else Rows (map (fun k => (NtoQc k * d)%Qc :: pick (ccols c) (fst (traj (jax_step (lin_f (crhs c)) (sv c) (cdt c)) 0 0 (cy0 c) 0 (k * rnd (d / cdt c)))))
+                 (filter (fun k => Qcleb (ccut c) (NtoQc k * d)%Qc) (seq 0 n))).
+Definition time_dependent (c : tcase) : bool := negb (forallb (fun q => Qeq_bool (this q) 0) (vt (crhs c))).
 Definition implO (c : tcase) : outcome :=
   if isjax c then jax_run c else
   if isrun c then run_model (lin_f (crhs c)) (sv c) (cT c) (cdt c) (cdts c) (ccut c) (ccols c) (cy0 c) 0
@@ -337,6 +367,7 @@ Definition okI (p : tcase * outcome) := agree (implO (fst p)) (snd p).
 Definition okS (p : tcase * outcome) := agree (specO (fst p)) (snd p).
 Definition g_fit (p : tcase * outcome) := rows_fit (cT (fst p)) (cdt (fst p)) (dts_of (fst p)).
 Definition g_mult (p : tcase * outcome) := sampling_multiple (cdt (fst p)) (dts_of (fst p)).
+Definition g_heun_time (p : tcase * outcome) := negb (isjax (fst p) && solver_eqb (sv (fst p)) Heun && time_dependent (fst p)).
 Definition g_frame (p : tcase * outcome) := negb (isrun (fst p)) || frame_ok (cT (fst p)) (dts_of (fst p)).
 """
 
@@ -359,17 +390,17 @@ def coq_case(case, out):
     return f"({t}, {coq_outcome(out)})"
 
 def model_compare(ctx, cases, outs, tag):
-    """index lists: (differs from Impl, differs from Spec, rows_fit false, frame_ok false, sampling_multiple false)"""
-    res = [[], [], [], [], []]
+    """index lists: (differs from Impl, differs from Spec, rows_fit false, frame_ok false, sampling_multiple false, heun_same_time false)"""
+    res = [[], [], [], [], [], []]
     shard = 80
     for s in range(0, len(cases), shard):
         terms = [coq_case(c, o) for c, o in zip(cases[s:s + shard], outs[s:s + shard])]
         body = ("Definition cases : list (tcase * outcome) := " + clist(terms) + ".\n" +
-                "".join(f"Eval vm_compute in (mismatches {fn} cases).\n" for fn in ("okI", "okS", "g_fit", "g_frame", "g_mult")))
+                "".join(f"Eval vm_compute in (mismatches {fn} cases).\n" for fn in ("okI", "okS", "g_fit", "g_frame", "g_mult", "g_heun_time")))
         out = coq_eval(ctx, f"c03_{tag}_{s}", HEADER, body)
         ls = parse_nat_lists(out)
-        assert len(ls) == 5, out[:400]
-        for k in range(5):
+        assert len(ls) == 6, out[:400]
+        for k in range(6):
             res[k] += [s + i for i in ls[k]]
     return res
 
@@ -395,7 +426,7 @@ def fails(ctx, case, tag, strict=False):
         return True, r
     res = model_compare(ctx, [case], [r], tag)
     if strict:      # shrinking must stay inside all guards, otherwise it drifts into a known loud class
-        return bool(res[1]) and not (res[2] or res[3] or res[4]), r
+        return bool(res[1]) and not (res[2] or res[3] or res[4] or res[5]), r
     return bool(res[1]), r
 
 def shrink(ctx, case):
@@ -444,7 +475,7 @@ def check(ctx):
     crashed = [i for i, r in enumerate(outs) if i not in adapt and not known_outcome(r)]
     good = [i for i in range(len(cases)) if i not in crashed and i not in adapt]
     res = model_compare(ctx, [cases[i] for i in good], [outs[i] for i in good], "main")
-    badI, badS, nofit, noframe, nomult = [[good[i] for i in l] for l in res]
+    badI, badS, nofit, noframe, nomult, noheun = [[good[i] for i in l] for l in res]
     # dts not a positive integer multiple of dt is outside the property's quantifier: there only model = code is demanded
     out_of_scope = [i for i in nomult if i in badS]
     badS = [i for i in badS if i not in nomult]
@@ -457,7 +488,7 @@ def check(ctx):
     badS = badS + bad_adapt
     ctx.note(f"support stream (tolerance decision on a closed-form solution): {len(adapt)} scipy runs with rtol=1e-10, atol=1e-12, "
              f"max error {max([outs[i].get('max_abs_error', 0) for i in adapt if isinstance(outs[i], dict)] or [0]):.2e} (bound {ADAPTIVE_TOL}), failing {len(bad_adapt)}")
-    for name, l in zip(GUARDS, (nofit,)):
+    for name, l in zip(GUARDS, (nofit, noheun)):
         for i in l:
             if i not in badI:        # attributed to a known finding only when the code fails in exactly the modelled way
                 guard_viol.setdefault(i, []).append(name)
@@ -481,6 +512,9 @@ def check(ctx):
         outcome_hist[k] = outcome_hist.get(k, 0) + 1
     hist = dict(kind=dict(solve=sum(1 for c in cases if c["kind"] == "solve"), run=sum(1 for c in cases if c["kind"] == "run"),
                           adaptive_support=len(adapt), run_with_time_dependent_input=sum(1 for c in cases if c.get("inp"))),
+                time_dependent_by_backend={b: sum(1 for c in cases if c.get("inp") and c.get("backend", "default") == b) for b in ("default", "torch", "jax")},
+                store_step_gt_1_time_dependent_by_backend={b: sum(1 for c in cases if c.get("inp") and store_step(c) > 1 and c.get("backend", "default") == b) for b in ("default", "torch", "jax")},
+                output_form={f: sum(1 for c in cases if c.get("oform") == f) for f in ("dict", "list", "wild")},
                 backend={b: sum(1 for c in cases if c.get("backend", "default") == b) for b in ("default", "torch", "jax")},
                 solver=dict(euler=sum(1 for c in cases if c["solver"] == "euler"), heun=sum(1 for c in cases if c["solver"] == "heun")),
                 store_step_gt_1=sum(1 for c in cases if store_step(c) > 1), cutoff_gt_0=sum(1 for c in cases if Fr(c.get("cutoff", 0)) > 0),
@@ -488,7 +522,7 @@ def check(ctx):
                 rhs_returns_own_buffer=sum(1 for c in cases if c["kind"] == "run" or c.get("aliased")),
                 stateful_rhs=sum(1 for c in cases if c["kind"] == "solve" and any(Fr(x) != 0 for x in c["vn"] + c["vt"])),
                 T_not_multiple_of_dts=sum(1 for c in cases if (Fr(c["T"]) / (Fr(c["dts"]) if c["dts"] is not None else Fr(c["dt"]))).denominator != 1),
-                guard_false=dict(rows_fit=len(nofit), frame_ok=len(noframe), sampling_multiple=len(nomult)), real_outcomes=outcome_hist,
+                guard_false=dict(heun_same_time=len(noheun), rows_fit=len(nofit), frame_ok=len(noframe), sampling_multiple=len(nomult)), real_outcomes=outcome_hist,
                 max_steps=max([py_round(Fr(c["T"]) / Fr(c["dt"])) for c in cases] or [0]))
     write_evidence(ctx, evaluations=len(cases), distinct_nontrivial=len(nt),
                    rule="a case is non-trivial when store_step > 1 or cutoff > 0 or t0 != 0 (DESIGN summary table); distinct = distinct canonical JSON. "
